@@ -25,6 +25,18 @@ INPUTS = {
     "log": "KNOBS\n -logfile true\nSOLUTION 1\n pH 7 charge\n Ca 1\n C 2\nEQUILIBRIUM_PHASES 1\n Calcite 0 1\nSELECTED_OUTPUT 1\n -totals Ca C\n -si Calcite\nEND\n",
     "two": "SOLUTION 1\n pH 7\n Na 1\n Cl 1\n K 0.5\nSELECTED_OUTPUT 1\n -totals Na\nUSER_PUNCH 1\n -headings a b\n 10 PUNCH 1.5, \"x\"\nSELECTED_OUTPUT 2\n -totals Cl K\n -high_precision true\nEND\nPRINT\n -selected_output false\nUSE solution 1\nREACTION 1\n NaCl 1\n 1 mmol in 2 steps\nEND\nPRINT\n -selected_output true\nUSE solution 1\nREACTION 1\n NaCl 1\n 1 mmol in 2 steps\nEND\n",
 }
+# several calculation steps that read state left behind by earlier steps (gas / Peng-Robinson read-outs, density, conductivity,
+# phase amounts ...) - results computed or reset as a side effect of printing would differ between sink configurations
+INPUTS["carry"] = (
+    "SOLUTION 1\n temp 25\n pH 7 charge\n Na 10\n Cl 10\n Ca 2\n C 4\nEQUILIBRIUM_PHASES 1\n CO2(g) 1.5 10\n Calcite 0 0.01\n"
+    "GAS_PHASE 1\n -fixed_volume\n -volume 1\n CO2(g) 0.5\n N2(g) 0.5\nSAVE solution 2\n"
+    "SELECTED_OUTPUT 1\n -reset false\n -high_precision true\nUSER_PUNCH 1\n"
+    " -headings prp prphi gvm si equi mu tc rho sc pe cb totc gasco2 laca lk osm prn2 sin2 kgw\n"
+    " 10 PUNCH PR_P(\"CO2(g)\"), PR_PHI(\"CO2(g)\"), GAS_VM, SI(\"CO2(g)\"), EQUI(\"Calcite\"), MU, TC, RHO, SC, -LA(\"e-\"), CHARGE_BALANCE\n"
+    " 20 PUNCH TOT(\"C\"), GAS(\"CO2(g)\"), LA(\"Ca+2\"), LK_PHASE(\"Calcite\"), OSMOTIC, PR_P(\"N2(g)\"), SI(\"N2(g)\"), TOT(\"water\")\nEND\n"
+    "USE solution 2\nREACTION 1\n NaCl 1\n 1 mmol in 2 steps\nEND\n"
+    "USE solution 2\nREACTION_TEMPERATURE 1\n 60\nEND\n"
+    "USE solution 2\nEQUILIBRIUM_PHASES 2\n Calcite 0 0.01\nEND\n")
 CUSTOM = {"Output": "o.txt", "Log": "l.txt", "Error": "e.txt", "Dump": "d.txt"}
 
 
@@ -258,7 +270,7 @@ def cases(tier):
     if tier == "quick":
         # all 2^9 global configurations (per-user all on) on the two richest inputs; all 2^4 per-user x cur x names on the
         # two-block inputs; single flips from the all-off and all-on corners
-        for inp in ("warn", "dump"):
+        for inp in ("warn", "dump", "carry"):
             for g in range(2 ** len(GLOBAL)):
                 out.append({"input": inp, "cfg": bits(g, len(GLOBAL)) + [1, 1, 1, 1], "names": 0, "cur": 1})
         for inp in ("warn", "two", "err2"):
@@ -272,7 +284,7 @@ def cases(tier):
                 out.append({"input": inp, "cfg": [0] * NSW, "names": names, "cur": 1})
         for corner in (0, 1):
             for f in range(NSW):
-                for i1, i2 in (("warn", "two"), ("dump", "dump")):
+                for i1, i2 in (("warn", "two"), ("dump", "dump"), ("carry", "carry")):
                     out.append({"input": i1, "cfg": [corner] * NSW, "names": 0, "cur": 1, "flip": f, "input2": i2})
     else:
         for inp in INPUTS:
@@ -280,7 +292,7 @@ def cases(tier):
                 out.append({"input": inp, "cfg": bits(g, NSW), "names": (g >> 3) & 1, "cur": 1 + ((g >> 5) & 1)})
         for g in range(2 ** NSW):
             for f in range(NSW):
-                i1, i2 = (("warn", "two"), ("dump", "dump"))[(g + f) & 1]
+                i1, i2 = (("warn", "two"), ("dump", "dump"), ("carry", "carry"))[(g + f) % 3]
                 out.append({"input": i1, "cfg": bits(g, NSW), "names": 0, "cur": 1 + (g & 1), "flip": f, "input2": i2})
     # simplest first: fewer enabled sinks, no flip
     out.sort(key=lambda c: (c.get("flip") is not None, sum(c["cfg"]), c["names"]))
